@@ -6,6 +6,7 @@ independent readers (PyCA loaders, ssh-keygen, openssl) agree, and keys written 
 are read identically by asyncssh.
 """
 
+import base64
 import itertools
 import json
 import os
@@ -310,17 +311,333 @@ def worker(job):
     return acc
 
 
+# ------------------------------------------------------------------ certificates: asyncssh <-> PyCA <-> ssh-keygen
+PERMITS = ('permit-X11-forwarding', 'permit-agent-forwarding', 'permit-port-forwarding', 'permit-pty', 'permit-user-rc')
+CERT_KEYTYPES = [('ssh-ed25519', {}), ('ssh-rsa', {'key_size': 2048}), ('ecdsa-sha2-nistp256', {}), ('ecdsa-sha2-nistp521', {})]
+
+
+def cert_view_asyncssh(c):
+    crit, ext = {}, {}
+    for k, v in c.options.items():
+        if k == 'force-command':
+            crit[k] = v
+        elif k == 'source-address':
+            crit[k] = ','.join(str(a) for a in v)
+        else:
+            ext[k] = ''
+    return {'type': 'user' if c._cert_type == 1 else 'host', 'serial': c._serial, 'key_id': c._key_id,
+            'principals': list(c.principals), 'valid_after': c._valid_after, 'valid_before': c._valid_before,
+            'critical': crit, 'extensions': ext, 'subject': base64.b64encode(c.key.public_data).decode(),
+            'ca': base64.b64encode(c.signing_key.public_data).decode()}
+
+
+def _s(x):
+    return x.decode() if isinstance(x, bytes) else x
+
+
+def cert_view_pyca(data):
+    from cryptography.hazmat.primitives.serialization import load_ssh_public_identity, SSHCertificateType
+    pc = load_ssh_public_identity(data)
+    pc.verify_cert_signature()
+    return {'type': 'user' if pc.type == SSHCertificateType.USER else 'host', 'serial': pc.serial, 'key_id': pc.key_id.decode('utf-8'),
+            'principals': [p.decode('utf-8') for p in pc.valid_principals], 'valid_after': pc.valid_after,
+            'valid_before': pc.valid_before, 'critical': {k.decode(): v.decode() for k, v in pc.critical_options.items()},
+            'extensions': {k.decode(): v.decode() for k, v in pc.extensions.items()},
+            'subject': _s(pyca_public_blob(pc.public_key())), 'ca': _s(pyca_public_blob(pc.signature_key()))}
+
+
+def cert_view_keygen(pth):
+    """parse `ssh-keygen -L` (fingerprints instead of blobs; validity printed in local time: not compared)"""
+    r = subprocess.run([SSH_KEYGEN, '-L', '-f', pth], capture_output=True, text=True)
+    if r.returncode != 0:
+        raise ValueError('ssh-keygen -L failed: ' + r.stderr[:200])
+    v = {'principals': [], 'critical': {}, 'extensions': {}}
+    sect = None
+    for ln in r.stdout.splitlines()[1:]:
+        t = ln.strip()
+        if ln.startswith(' ' * 16):
+            if sect == 'principals':
+                v['principals'].append(t)
+            elif sect in ('critical', 'extensions'):
+                name, _, val = t.partition(' ')
+                v[sect][name] = val
+            continue
+        sect = None
+        if t.startswith('Type:'):
+            v['type'] = t.split()[2]
+        elif t.startswith('Public key:'):
+            v['subject_fp'] = t.split()[3]
+        elif t.startswith('Signing CA:'):
+            v['ca_fp'] = t.split()[3]
+        elif t.startswith('Key ID:'):
+            v['key_id'] = t[len('Key ID: "'):-1]
+        elif t.startswith('Serial:'):
+            v['serial'] = int(t.split()[1])
+        elif t.startswith('Principals:'):
+            sect = 'principals'
+            if '(none)' in t:
+                sect = None
+        elif t.startswith('Critical Options:'):
+            sect = None if '(none)' in t else 'critical'
+        elif t.startswith('Extensions:'):
+            sect = None if '(none)' in t else 'extensions'
+    return v
+
+
+def cert_option_grid(full):
+    out = []
+    for fc in (None, 'echo "hi"  there'):
+        for sa in (None, ['10.0.0.0/8', '1.2.3.4']):
+            for bits in range(64):
+                if not full and bits not in (0, 63, 31, 32, 21, 42, 1, 48):
+                    continue
+                out.append((fc, sa, tuple(bool(bits >> i & 1) for i in range(5)), bool(bits >> 5 & 1)))
+    return out
+
+
+def cert_worker(job):
+    ca_alg, subj_alg, tier = job
+    acc = core.Acc()
+    ca = P.key('c15-ca-' + ca_alg, ca_alg, **dict(CERT_KEYTYPES)[ca_alg])
+    subj = P.key('c15-subj-' + subj_alg, subj_alg, **dict(CERT_KEYTYPES)[subj_alg])
+    tmp = os.path.join(SCRATCH, 'cert-%s-%s-%d' % (ca_alg, subj_alg, os.getpid()))
+    os.makedirs(tmp, exist_ok=True)
+    import ipaddress
+    full = ca_alg == 'ssh-ed25519' and subj_alg == 'ssh-ed25519'
+
+    def viol(kind, label, detail):
+        acc.violation('certs:%s:%s' % (kind, label), '%s (CA %s, subject %s)' % (detail, ca_alg, subj_alg),
+                      {'kind': 'cert', 'ca': ca_alg, 'subj': subj_alg})
+
+    def compare(label, data, want, pth):
+        """every reader must see `want`"""
+        try:
+            a = cert_view_asyncssh(asyncssh.import_certificate(data))
+            if a != want:
+                viol('asyncssh-reads-differently', label, 'asyncssh: %r, expected %r' % (a, want))
+        except Exception as exc:            # pylint: disable=broad-except
+            viol('asyncssh-cannot-read', label, repr(exc)[:200])
+        if subj_alg != 'ssh-dss':
+            try:
+                p = cert_view_pyca(data)
+                if p != want:
+                    viol('pyca-reads-differently', label, 'PyCA: %r, expected %r' % (p, want))
+            except Exception as exc:        # pylint: disable=broad-except
+                viol('pyca-cannot-read', label, '%r ; options=%r extensions=%r' % (exc, sorted(want['critical']), sorted(want['extensions'])))
+        if SSH_KEYGEN and pth:
+            try:
+                k = cert_view_keygen(pth)
+                exp = {'type': want['type'], 'serial': want['serial'], 'key_id': want['key_id'], 'principals': want['principals'],
+                       'critical': want['critical'], 'extensions': want['extensions'],
+                       'subject_fp': subj.get_fingerprint(), 'ca_fp': ca.get_fingerprint()}
+                if k != exp:
+                    viol('ssh-keygen-reads-differently', label, 'ssh-keygen -L: %r, expected %r' % (k, exp))
+            except Exception as exc:        # pylint: disable=broad-except
+                viol('ssh-keygen-cannot-read', label, repr(exc)[:200])
+
+    # (1) written by asyncssh
+    n = 0
+    for fc, sa, permits, touch in cert_option_grid(full):
+        for principals, va, vb, serial in (((), 0, 2 ** 64 - 1, 0), (('u1', 'u2'), 1000, 2000, 2 ** 64 - 1)):
+            if not full and principals and (fc or sa):
+                continue
+            kw = dict(zip(('permit_x11_forwarding', 'permit_agent_forwarding', 'permit_port_forwarding', 'permit_pty', 'permit_user_rc'), permits))
+            c = ca.generate_user_certificate(subj, 'id %d' % n, principals=list(principals), force_command=fc, source_address=sa,
+                                             touch_required=touch, valid_after=va, valid_before=vb, serial=serial, **kw)
+            want = {'type': 'user', 'serial': serial, 'key_id': 'id %d' % n, 'principals': list(principals), 'valid_after': va,
+                    'valid_before': vb, 'critical': {}, 'extensions': {p: '' for p, on in zip(PERMITS, permits) if on},
+                    'subject': base64.b64encode(subj.public_data).decode(), 'ca': base64.b64encode(ca.public_data).decode()}
+            if fc:
+                want['critical']['force-command'] = fc
+            if sa:
+                want['critical']['source-address'] = ','.join(str(ipaddress.ip_network(x)) for x in sa)
+            if not touch:
+                want['extensions']['no-touch-required'] = ''
+            data = c.export_certificate('openssh')
+            pth = os.path.join(tmp, 'c-cert.pub')
+            with open(pth, 'wb') as f:
+                f.write(data)
+            label = 'written-by-asyncssh/user/%s%s%s' % ('fc' if fc else '', '+sa' if sa else '', '' if touch else '+no-touch')
+            acc.add(core.digest(('cert-a', ca_alg, subj_alg, fc, tuple(sa or ()), permits, touch, principals)), transitions=3,
+                    sample={'certificate': 'asyncssh user cert', 'critical': want['critical'], 'extensions': sorted(want['extensions'])}
+                    if full and fc and sa and not touch and permits == (True, False, True, False, True) and principals else None)
+            compare(label, data, want, pth if (full or n % 4 == 0) else None)
+            n += 1
+    for principals in ((), ('h.example', '*.example')):
+        c = ca.generate_host_certificate(subj, 'host', principals=list(principals), serial=5, valid_after=1, valid_before=2 ** 33)
+        want = {'type': 'host', 'serial': 5, 'key_id': 'host', 'principals': list(principals), 'valid_after': 1, 'valid_before': 2 ** 33,
+                'critical': {}, 'extensions': {}, 'subject': base64.b64encode(subj.public_data).decode(),
+                'ca': base64.b64encode(ca.public_data).decode()}
+        data = c.export_certificate('openssh')
+        pth = os.path.join(tmp, 'h-cert.pub')
+        with open(pth, 'wb') as f:
+            f.write(data)
+        acc.add(core.digest(('cert-h', ca_alg, subj_alg, principals)), transitions=3)
+        compare('written-by-asyncssh/host', data, want, pth)
+        # other export formats of the certificate re-import identically
+        for fmt in ('openssh', 'rfc4716'):
+            try:
+                back = asyncssh.import_certificate(c.export_certificate(fmt))
+                if back.public_data != c.public_data:
+                    viol('roundtrip', 'certificate-format/' + fmt, 'export/import changes the certificate')
+            except Exception as exc:        # pylint: disable=broad-except
+                viol('roundtrip', 'certificate-format/' + fmt, repr(exc)[:200])
+            acc.add(core.digest(('cert-fmt', ca_alg, subj_alg, fmt, principals)), transitions=1)
+
+    # (2) written by PyCA, read by asyncssh
+    if subj_alg != 'ssh-dss':
+        from cryptography.hazmat.primitives.serialization import SSHCertificateBuilder, SSHCertificateType, load_ssh_private_key, \
+            load_ssh_public_key
+        pca = load_pem_private_key(ca.export_private_key('pkcs8-pem'), None)
+        psub = load_ssh_public_key(subj.export_public_key('openssh'))
+        for crit, ext, principals in (({}, {}, ()), ({b'force-command': b'run it'}, {b'permit-pty': b''}, (b'alice',)),
+                                      ({b'force-command': b'x', b'source-address': b'10.0.0.0/8,::1/128'},
+                                       {b'no-touch-required': b'', b'permit-X11-forwarding': b'', b'permit-user-rc': b''}, (b'a', b'b')),
+                                      ({}, {b'permit-agent-forwarding': b'', b'permit-port-forwarding': b''}, ())):
+            for ctype in ('user', 'host'):
+                if ctype == 'host' and (crit or ext):
+                    continue
+                b = SSHCertificateBuilder().public_key(psub).serial(99).type(SSHCertificateType.USER if ctype == 'user' else SSHCertificateType.HOST) \
+                    .key_id(b'pyca id').valid_after(10).valid_before(2 ** 40)
+                b = b.valid_principals(list(principals)) if principals else b.valid_for_all_principals()
+                for k, v in crit.items():
+                    b = b.add_critical_option(k, v)
+                for k, v in ext.items():
+                    b = b.add_extension(k, v)
+                data = b.sign(pca).public_bytes()
+                want = {'type': ctype, 'serial': 99, 'key_id': 'pyca id', 'principals': [p.decode() for p in principals], 'valid_after': 10,
+                        'valid_before': 2 ** 40, 'critical': {k.decode(): v.decode() for k, v in crit.items()},
+                        'extensions': {k.decode(): '' for k in ext}, 'subject': base64.b64encode(subj.public_data).decode(),
+                        'ca': base64.b64encode(ca.public_data).decode()}
+                acc.add(core.digest(('cert-p', ca_alg, subj_alg, ctype, tuple(sorted(crit)), tuple(sorted(ext)))), transitions=1)
+                try:
+                    a = cert_view_asyncssh(asyncssh.import_certificate(data))
+                    if a != want:
+                        viol('asyncssh-reads-differently', 'written-by-pyca/' + ctype, 'asyncssh: %r, PyCA wrote %r' % (a, want))
+                except Exception as exc:    # pylint: disable=broad-except
+                    viol('asyncssh-cannot-read', 'written-by-pyca/' + ctype, repr(exc)[:200])
+
+    # (3) written by ssh-keygen -s, read by asyncssh; ssh-keygen -L and PyCA are the reference readers
+    if SSH_KEYGEN and subj_alg != 'ssh-dss':
+        capth = os.path.join(tmp, 'ca')
+        with open(capth, 'wb') as f:
+            f.write(ca.export_private_key('openssh'))
+        os.chmod(capth, 0o600)
+        with open(os.path.join(tmp, 'subj.pub'), 'wb') as f:
+            f.write(subj.export_public_key('openssh'))
+        variants = [[], ['-h', '-n', 'h.example'], ['-n', 'alice,bob'], ['-O', 'clear', '-n', 'a'],
+                    ['-O', 'clear', '-O', 'permit-pty', '-O', 'no-touch-required', '-n', 'a'],
+                    ['-O', 'force-command=/bin/true -x', '-O', 'source-address=10.0.0.0/8,192.168.1.1/32', '-n', 'a'],
+                    ['-O', 'no-pty', '-O', 'no-user-rc', '-O', 'no-touch-required', '-O', 'force-command=x', '-n', 'a', '-z', '18446744073709551615'],
+                    ['-O', 'no-x11-forwarding', '-O', 'no-agent-forwarding', '-O', 'no-port-forwarding', '-z', '3']]
+        for i, args in enumerate(variants):
+            out = os.path.join(tmp, 'subj-cert.pub')
+            if os.path.exists(out):
+                os.unlink(out)
+            r = subprocess.run([SSH_KEYGEN, '-q', '-s', capth, '-I', 'kg %d' % i] + args + [os.path.join(tmp, 'subj.pub')], capture_output=True)
+            acc.add(core.digest(('cert-k', ca_alg, subj_alg, tuple(args))), transitions=1)
+            if r.returncode != 0 or not os.path.exists(out):
+                acc.count('ssh-keygen-s-failed')
+                continue
+            data = open(out, 'rb').read()
+            try:
+                ref = cert_view_pyca(data)
+                kv = cert_view_keygen(out)
+                a = cert_view_asyncssh(asyncssh.import_certificate(data))
+                if a != ref:
+                    viol('asyncssh-reads-differently', 'written-by-ssh-keygen', 'ssh-keygen -s %r: asyncssh %r, PyCA %r' % (args, a, ref))
+                if (a['critical'], a['extensions'], a['principals'], a['serial'], a['key_id']) != \
+                        (kv['critical'], kv['extensions'], kv['principals'], kv['serial'], kv['key_id']):
+                    viol('asyncssh-reads-differently', 'written-by-ssh-keygen', 'ssh-keygen -s %r: asyncssh %r, ssh-keygen -L %r' % (args, a, kv))
+            except Exception as exc:        # pylint: disable=broad-except
+                viol('asyncssh-cannot-read', 'written-by-ssh-keygen', '%r for ssh-keygen -s %r' % (exc, args))
+    shutil.rmtree(tmp, ignore_errors=True)
+    return acc
+
+
+# ------------------------------------------------------------------ keys written by openssl in shapes asyncssh does not write itself
+def foreign_worker(_job):
+    acc = core.Acc()
+    if not OPENSSL:
+        return acc
+    tmp = os.path.join(SCRATCH, 'foreign-%d' % os.getpid())
+    os.makedirs(tmp, exist_ok=True)
+
+    def sh(*cmd):
+        return subprocess.run([OPENSSL] + list(cmd), capture_output=True, cwd=tmp)
+    cases = []
+    for curve, alg in (('prime256v1', 'ecdsa-sha2-nistp256'), ('secp384r1', 'ecdsa-sha2-nistp384'), ('secp521r1', 'ecdsa-sha2-nistp521')):
+        k = P.key('c15-' + alg, alg)
+        with open(os.path.join(tmp, 'k.pem'), 'wb') as f:
+            f.write(k.export_private_key('pkcs8-pem'))
+        # SEC1 / PKCS#8 without the OPTIONAL public key (RFC 5915), explicit conversions, DER forms
+        sh('ec', '-in', 'k.pem', '-no_public', '-out', 'sec1-nopub.pem')
+        sh('pkcs8', '-topk8', '-nocrypt', '-in', 'sec1-nopub.pem', '-out', 'p8-nopub.pem')
+        sh('ec', '-in', 'k.pem', '-out', 'sec1.pem')
+        sh('ec', '-in', 'k.pem', '-outform', 'DER', '-out', 'sec1.der')
+        sh('ec', '-in', 'k.pem', '-no_public', '-outform', 'DER', '-out', 'sec1-nopub.der')
+        sh('ec', '-in', 'k.pem', '-conv_form', 'compressed', '-out', 'sec1-compressed.pem')
+        sh('pkey', '-in', 'k.pem', '-out', 'pkey.pem')
+        for fn in ('sec1-nopub.pem', 'p8-nopub.pem', 'sec1.pem', 'sec1.der', 'sec1-nopub.der', 'sec1-compressed.pem', 'pkey.pem'):
+            if os.path.exists(os.path.join(tmp, fn)):
+                os.replace(os.path.join(tmp, fn), os.path.join(tmp, fn + '@' + alg))
+            cases.append((alg, k, fn + '@' + alg))
+    for alg, kw in (('ssh-rsa', {'key_size': 2048}), ('ssh-ed25519', {}), ('ssh-dss', {})):
+        k = P.key('c15-' + alg, alg, **kw)
+        with open(os.path.join(tmp, 'k.pem'), 'wb') as f:
+            f.write(k.export_private_key('pkcs8-pem'))
+        fns = []
+        if alg == 'ssh-rsa':
+            sh('rsa', '-in', 'k.pem', '-traditional', '-out', 'trad.pem')
+            sh('rsa', '-in', 'k.pem', '-outform', 'DER', '-out', 'trad.der')
+            fns = ['trad.pem', 'trad.der']
+        sh('pkey', '-in', 'k.pem', '-outform', 'DER', '-out', 'p8.der')
+        sh('pkey', '-in', 'k.pem', '-out', 'p8.pem')
+        for fn in fns + ['p8.der', 'p8.pem']:
+            cases.append((alg, k, fn + '@' + alg))
+            if os.path.exists(os.path.join(tmp, fn)):
+                os.replace(os.path.join(tmp, fn), os.path.join(tmp, fn + '@' + alg))
+    for alg, k, fn in cases:
+        pth = os.path.join(tmp, fn)
+        if not os.path.exists(pth):
+            acc.count('openssl-could-not-write:' + fn)
+            continue
+        acc.add(core.digest(('foreign', alg, fn)), transitions=1, sample={'written by openssl': fn, 'key': alg} if fn.startswith('sec1-nopub.pem') and '256' in alg else None)
+        try:
+            got = asyncssh.read_private_key(pth)
+            if got.public_data != k.public_data or got.export_public_key('openssh') != k.export_public_key('openssh') or \
+                    got.export_private_key('openssh') and asyncssh.import_private_key(got.export_private_key('openssh')).public_data != k.public_data:
+                acc.violation('keys:reads-openssl-differently:%s:%s' % (alg, fn.split('@')[0]),
+                              'asyncssh reads %s as a key with public blob of %d bytes, the key has %d' %
+                              (fn, len(got.public_data), len(k.public_data)), {'kind': 'foreign', 'alg': alg, 'label': fn})
+        except Exception as exc:            # pylint: disable=broad-except
+            if 'compressed' in fn:
+                acc.count('compressed-point-not-supported')
+                continue
+            acc.violation('keys:cannot-read-openssl:%s:%s' % (alg, fn.split('@')[0]), repr(exc)[:200], {'kind': 'foreign', 'alg': alg, 'label': fn})
+    shutil.rmtree(tmp, ignore_errors=True)
+    return acc
+
+
 def main(tier, seed):
     t0 = core.now()
     os.makedirs(SCRATCH, exist_ok=True)
     jobs = [(alg, kw, tier) for alg, kw in KEYTYPES]
     acc = core.pmap(worker, core.rotate(jobs, seed))
+    cjobs = [(c, sj, tier) for c, _ in CERT_KEYTYPES for sj, _ in CERT_KEYTYPES
+             if tier == 'thorough' or c == 'ssh-ed25519' or sj == 'ssh-ed25519']
+    acc.merge(core.pmap(cert_worker, core.rotate(cjobs, seed)))
+    acc.merge(core.pmap(foreign_worker, [0]))
     shutil.rmtree(SCRATCH, ignore_errors=True)
     rule = ('7 key types x every private export format/cipher/hash/PBES version asyncssh offers (%d schemes) x '
             'passphrases {1 char, non-ASCII, 31/32/33 chars, 1 kB} (quick: full passphrase grid on one scheme per '
             'family) with 5 wrong-passphrase variants each; 6 public formats x 8 comments (double blanks, tabs, '
             'non-UTF-8); PyCA loaders, ssh-keygen (-y, -l, -e -m, key generation in 3 formats) and openssl (pkey, '
-            'pkcs8 -topk8 v1/v2) as independent readers/writers; concatenated multi-key files in every order'
+            'pkcs8 -topk8 v1/v2) as independent readers/writers; concatenated multi-key files in every order; '
+            'certificates: CA x subject key types x every combination of the 2 critical options and 6 extensions '
+            '(full grid for ed25519/ed25519) written by asyncssh and read by asyncssh, PyCA and ssh-keygen -L; '
+            'certificates written by PyCA and by ssh-keygen -s read by asyncssh; EC/RSA/Ed25519/DSA private keys '
+            'in the shapes openssl writes (SEC1 with and without the optional public key, traditional, DER)'
             % len(private_matrix()))
     return core.finish(PROP, tier, seed, 'exploration', acc, t0, rule,
                        {'key_types': [k for k, _ in KEYTYPES], 'schemes': len(private_matrix())},
